@@ -1,16 +1,17 @@
 (* C01 Canonical round trip: parse -> format -> parse is a fixpoint (both instantiations) *)
-From Coq Require Import List NArith Bool.
-From PM Require Import Base Text Model Roundtrip BuildG C01P Tables Consts Conds.
-Import ListNotations.
-Notation cfg := src_cfg. Notation G := (string_shape src_cfg). Notation P := (ptype_shape src_cfg).
+Load "coq/props/Hdr".
+From PM Require Import BuildG C01P.
 Lemma src_rt : rt_ok cfg. Proof. apply conds_rt_ok. vm_compute. reflexivity. Qed.
+Lemma src_tbl : tbl_ok cfg. Proof. apply conds_tbl_ok. vm_compute. reflexivity. Qed.
+Lemma src_cfg_ok : cfg_ok cfg. Proof. exact (rt_cfg _ src_rt). Qed.
+Ltac sc := sidecond_with src_rt src_tbl.
 Theorem C01_generic_purl : forall s t p, parse cfg G s = Ok (t, p) ->
   format_panics cfg G t = false /\ parse cfg G (format cfg G t p) = Ok (t, p).
-Proof. intros s t p. apply (C01_G cfg src_rt); vm_compute; reflexivity. Qed.
+Proof. intros s t p. apply (C01_G cfg src_rt); sc. Qed.
 Print Assumptions C01_generic_purl.
 Theorem C01_typed_purl : forall s t p, parse cfg P s = Ok (t, p) ->
   format_panics cfg P t = false /\ parse cfg P (format cfg P t p) = Ok (t, p).
-Proof. intros s t p. apply (C01_P cfg src_rt); vm_compute; reflexivity. Qed.
+Proof. intros s t p. apply (C01_P cfg src_rt); sc. Qed.
 Print Assumptions C01_typed_purl.
 (* the identical string again *)
 Theorem C01_same_string_G : forall s t p t' p', parse cfg G s = Ok (t, p) -> parse cfg G (format cfg G t p) = Ok (t', p') ->
@@ -23,5 +24,7 @@ Proof. intros s t p t' p' H H'. destruct (C01_typed_purl s t p H) as [_ E]. rewr
 Print Assumptions C01_same_string_P.
 (* non-vacuity: pkg:NPM/%40a/b@1?K=v&checksum=b:00,A:1F#x/./y is accepted *)
 Definition ex1 : bytes := map nb [112;107;103;58;78;80;77;47;37;52;48;97;47;98;64;49;63;75;61;118;38;99;104;101;99;107;115;117;109;61;98;58;48;48;44;65;58;49;70;35;120;47;46;47;121]%N.
-Example C01_nonvacuous : exists t p, parse cfg G ex1 = Ok (t, p) /\ exists t' p', parse cfg P ex1 = Ok (t', p').
-Proof. vm_compute. do 2 eexists. split; [reflexivity|]. do 2 eexists. reflexivity. Qed.
+Definition ex1_g := Eval vm_compute in parse cfg G ex1.
+Definition ex1_p := Eval vm_compute in parse cfg P ex1.
+Example C01_nonvacuous : parse cfg G ex1 = ex1_g /\ parse cfg P ex1 = ex1_p /\ (match ex1_g with Ok _ => True | Err _ => False end) /\ (match ex1_p with Ok _ => True | Err _ => False end).
+Proof. repeat split; vm_compute; reflexivity. Qed.
